@@ -239,6 +239,9 @@ def specs(
         vsl = alpha = None
         if draw(st.integers(0, vsl_prob - 1)) == 0:
             vsl = sorted(draw(st.sets(st.integers(0, N - 1), max_size=N)))
+            if N >= 9 and draw(st.booleans()):
+                k0 = draw(st.integers(0, N - 9))
+                vsl = [k0, k0 + 8]  # a set whose iteration order is not ascending in CPython (hash collision)
             alpha = draw(fl(0, 0.5))
         links.append(
             dict(id=f"L{k}", name=f"L{k}", up=u, down=v, N=N, turnrate=draw(st.one_of(pos(0.05, 5), pos(0.05, 5), st.integers(1, 4))), vsl=vsl, alpha=alpha, **p)
@@ -263,7 +266,7 @@ def specs(
             pars["phi"] = draw(fl(0, 5))
     sp = dict(nodes=nodes_, links=links, origins=origins, dests=dests, pars=pars)
     if names == "mixed":
-        names = "drawn" if draw(st.booleans()) else "id"
+        names = draw(st.sampled_from(["id", "id", "id", "drawn", "drawn", "drawn", "clash"]))
     if names == "drawn":
         # distinct names, but not derived from the ids and not sorted like them
         pool = draw(st.permutations(range(len(nodes_) + len(links) + len(origins) + len(dests))))
